@@ -315,6 +315,7 @@ def run_component(modname, comp_idx, comp: Component, tier, seed, deadline, work
     results = []
     for s, sseed, out, p in procs:
         p.join()
+    for s, sseed, out, p in procs:
         if not out.exists():
             raise HarnessError(f"shard {comp.name}/{s} died without output (exit {p.exitcode})")
         r = json.loads(out.read_text())
